@@ -88,6 +88,13 @@ def make_case(rng):
             continue
         if rng.random() < 0.5 and len(cut_edges) < 4:
             cut_edges.append(e)
+    if chiral and rng.random() < 0.35:
+        # isolate a stereocentre: every bond around it is cut, the centre becomes a fragment of its own
+        c = rng.choice(sorted(chiral))
+        for nb in g[c]:
+            e = frozenset((c, nb))
+            if e not in cut_edges and e in set(allowed):
+                cut_edges.append(e)
     h = g.copy()
     h.remove_edges_from([tuple(e) for e in cut_edges])
     comps = list(nx.connected_components(h))
@@ -143,6 +150,8 @@ def make_case(rng):
         feats.add('cut_at_unmarked_single_bond')
     if chiral:
         feats.add('chiral_labels')
+        if any(len(c_) == 1 and next(iter(c_)) in chiral for c_ in comps):
+            feats.add('stereocentre_is_a_fragment_of_its_own')
         if any(any(frozenset((c, nb)) in cut_edges for nb in g[c]) for c in chiral):
             feats.add('cut_next_to_stereocentre')
     feats.add('double_bonds_%d' % len(stereo))
